@@ -160,5 +160,11 @@ func (n *node[T, ValType]) formatting() {
 }
 
 func (m *HashMap[T, ValType]) Len() int64 {
-	return int64(len(m.hashmap))
+	var n int64
+	for _, cur := range m.hashmap {
+		for ; cur != nil; cur = cur.next {
+			n++
+		}
+	}
+	return n
 }
